@@ -400,6 +400,30 @@ def generators(thorough):
                 C.run(lambda: obj(xx), lambda: fi(xx), f"x={xx.tolist()} {dt}", rtol=1e-4 if dt == "float32" else 1e-9)
     G["stats.gammafit"] = gammafit
 
+    def nearly_constant(n, spread, base):
+        k = np.arange(n)
+        u = ((k * 7919) % 1009) / 504.0 - 1.0            # deterministic, in [-1, 1]
+        return base * (1.0 + spread * u)
+
+    def gammafit_flat(obj, fi, C):
+        # s = log(mean) - mean(log) is ~ spread^2 / 2: the last bits of the two sums decide, so the ORDER in which
+        # they are accumulated must be the same in both worlds (NumPy reductions are pairwise from 8 elements on)
+        for n in (8, 9, 16, 33, 64, 200):
+            for spread in (1e-2, 1e-3, 1e-4, 1e-5):
+                for base in (1.0, 1200.0):
+                    x = nearly_constant(n, spread, base)
+                    C.run(lambda: obj(x), lambda: fi(x), f"nearly constant float64 series n={n} base={base} relative spread={spread}")
+            xi = (12000 + (np.arange(n) * 7919) % 3).astype("int16")
+            C.run(lambda: obj(xi), lambda: fi(xi), f"int16 series n={n} of 12000..12002")
+    also_later = ("stats.gammafit", gammafit_flat)
+
+    def gammastd_flat(obj, fi, C):
+        for n in (9, 33, 64):
+            for spread in (1e-3, 1e-5):
+                x = nearly_constant(n, spread, 1200.0)
+                C.run(lambda: obj(x, -9999, 0, n), lambda: fi(x, -9999, 0, n), f"nearly constant float64 series n={n} relative spread={spread} cal=[0,{n})", rtol=1e-7)
+    also_later2 = ("stats.gammastd", gammastd_flat)
+
     def gammastd(obj, fi, C):
         for x in S5[::2]:
             for dt in ("int16", "float64"):
@@ -512,6 +536,8 @@ def generators(thorough):
         prev = G[name]
         G[name] = lambda obj, fi, C: (prev(obj, fi, C), extra(obj, fi, C))
 
+    also(*also_later)
+    also(*also_later2)
     E16, _ = words(5, 4, [-32768, -25000, 0, 30000, 32767], stride=S)
     E16b, _ = words(4, 5, [-32768, -3, 2, 32767], stride=3 * S)
     EU = {"uint8": [0, 3, 200, 255], "uint16": [0, 3, 40000, 65535], "int32": [-2 ** 31, -7, 5, 2 ** 31 - 1]}
